@@ -169,11 +169,12 @@ func (val Value) Equals(other Value) Value {
 		return unknownResult()
 	case val.IsKnown() && !other.IsKnown():
 		switch {
-		case val.IsNull(), other.ty.HasDynamicTypes():
+		case val.IsNull(), other.ty.HasDynamicTypes(), val.ty.HasDynamicTypes():
 			// If known is Null, we need to wait for the unknown value since
 			// nulls of any type are equal.
 			// An unknown with a dynamic type compares as unknown, which we need
-			// to check before the type comparison below.
+			// to check before the type comparison below. The same applies
+			// to a known value that has unknown values of dynamic type inside.
 			return unknownResult()
 		case !val.ty.Equals(other.ty):
 			// There is no null comparison or dynamic types, so unequal types
@@ -184,11 +185,12 @@ func (val Value) Equals(other Value) Value {
 		}
 	case other.IsKnown() && !val.IsKnown():
 		switch {
-		case other.IsNull(), val.ty.HasDynamicTypes():
+		case other.IsNull(), val.ty.HasDynamicTypes(), other.ty.HasDynamicTypes():
 			// If known is Null, we need to wait for the unknown value since
 			// nulls of any type are equal.
 			// An unknown with a dynamic type compares as unknown, which we need
-			// to check before the type comparison below.
+			// to check before the type comparison below. The same applies
+			// to a known value that has unknown values of dynamic type inside.
 			return unknownResult()
 		case !other.ty.Equals(val.ty):
 			// There's no null comparison or dynamic types, so unequal types
